@@ -24,3 +24,1311 @@ Lemma rel_offset_text t1 t2 b1 e1 b2 e2 x y :
 Proof.
   intros H H1 H2. rewrite <- (sub_sub t1 b1 e1 x y H1), <- (sub_sub t2 b2 e2 x y H2), H. reflexivity.
 Qed.
+
+(** * boolean reflection helpers *)
+
+Lemma text_eqb_eq a : forall b, text_eqb a b = true <-> a = b.
+Proof.
+  induction a as [|x a IH]; intros [|y b]; cbn [text_eqb]; split; try discriminate; try reflexivity.
+  - rewrite andb_true_iff, N.eqb_eq, IH. intros [-> ->]. reflexivity.
+  - intros H. inversion H; subst. rewrite andb_true_iff, N.eqb_eq, IH. split; reflexivity.
+Qed.
+
+Lemma forallb2_Forall2 {X Y} (p : X -> Y -> bool) l : forall m,
+  forallb2 p l m = true <-> Forall2 (fun x y => p x y = true) l m.
+Proof.
+  induction l as [|x l IH]; intros [|y m]; cbn [forallb2]; split; intros H;
+    try discriminate; try (constructor; fail); try (inversion H; fail).
+  - apply andb_true_iff in H. destruct H as [H1 H2]. constructor; [exact H1|]. apply IH. exact H2.
+  - inversion H; subst. apply andb_true_iff. split; [assumption|]. apply IH. assumption.
+Qed.
+
+Lemma Forall2_nth {X Y} (P : X -> Y -> Prop) l m dx dy :
+  Forall2 P l m -> forall k, k < length l -> P (nth k l dx) (nth k m dy).
+Proof.
+  induction 1 as [|x y l m Hxy H IH]; intros k Hk; cbn [length] in Hk; [lia|].
+  destruct k; cbn [nth]; [exact Hxy|]. apply IH. lia.
+Qed.
+
+Lemma Forall2_length' {X Y} (P : X -> Y -> Prop) l m : Forall2 P l m -> length l = length m.
+Proof. induction 1; cbn [length]; congruence. Qed.
+
+Lemma Forall2_app' {X Y} (P : X -> Y -> Prop) l1 m1 l2 m2 :
+  Forall2 P l1 m1 -> Forall2 P l2 m2 -> Forall2 P (l1 ++ l2) (m1 ++ m2).
+Proof. induction 1; cbn [app]; [trivial|]. intros H2. constructor; auto. Qed.
+
+Lemma Forall2_impl' {X Y} (P Q : X -> Y -> Prop) l m :
+  (forall x y, P x y -> Q x y) -> Forall2 P l m -> Forall2 Q l m.
+Proof. intros H. induction 1; constructor; auto. Qed.
+
+(** * well-formed selections *)
+
+Definition wfts (t : ts) : Prop := tb t <= te t.
+Definition wff (T : list text) (f : frag) : Prop :=
+  fres f < length T /\ fb f <= fe f /\ fe f <= length (text_of T (fres f)).
+
+Lemma in_range_wff T f : in_range T f = true <-> wff T f.
+Proof.
+  unfold in_range, wff. rewrite !andb_true_iff, Nat.ltb_lt, !Nat.leb_le. tauto.
+Qed.
+
+(** * TextSelection::intersection: the intersection and the remainder of the first argument *)
+
+Lemma intersection_facts s o i rem orem : wfts s -> wfts o ->
+  intersection s o = Some (i, rem, orem) ->
+  tb i = Nat.max (tb s) (tb o) /\ te i = Nat.min (te s) (te o) /\ tb i <= te i
+  /\ rem = (if tb s <? tb i then Some (mkts None (tb s) (tb i))
+            else if te i <? te s then Some (mkts None (te i) (te s)) else None).
+Proof.
+  unfold wfts, intersection. intros Hs Ho.
+  repeat match goal with
+         | |- context [if ?c then _ else _] => let E := fresh "E" in destruct c eqn:E
+         end; intros H; inversion H; subst; cbn [tb te]; repeat split; try lia;
+    repeat match goal with
+           | |- context [if ?c then _ else _] => let E := fresh "E" in destruct c eqn:E
+           end; cbn [tb te] in *; try reflexivity; try (exfalso; lia).
+Qed.
+
+(** * scanning the fragments of one side *)
+
+(* what a usable intersection with fragment f gives: the piece [i] starts where the text selection
+   starts, lies inside f, [off] is its position inside f, and the remainder (if any) is the rest of
+   the text selection to the right of a non-empty piece *)
+Definition hit_ok (r : nat) (tsel : ts) (f : frag) (i : ts) (rem : option ts) (off : offset) : Prop :=
+  fres f = r /\ tb i = tb tsel /\ fb f <= tb i /\ tb i <= te i /\ te i <= fe f /\ te i <= te tsel
+  /\ off = mkoff (CB (tb i - fb f)) (CB (te i - fb f))
+  /\ match rem with
+     | None => te i = te tsel
+     | Some rm => rm = mkts None (te i) (te tsel) /\ te i < te tsel /\ tb i < te i
+     end.
+
+Lemma step_offset tsel f i rem orem : wfts tsel -> fb f <= fe f ->
+  intersection tsel (ts_of f) = Some (i, rem, orem) ->
+  relative_offset (tb i, te i) (rng f) BeginBegin = Some (mkoff (CB (tb i - fb f)) (CB (te i - fb f))).
+Proof.
+  intros Ht Hf H. apply intersection_facts in H; [|exact Ht|exact Hf].
+  destruct H as (Hb & He & Hbe & _). cbn [ts_of tb te] in Hb, He.
+  unfold relative_offset, relative_begin, relative_end, rng. cbn [fst snd].
+  replace (fb f <=? tb i) with true by (symmetry; apply Nat.leb_le; lia).
+  replace (te i <=? fe f) with true by (symmetry; apply Nat.leb_le; lia).
+  replace (fb f <=? te i) with true by (symmetry; apply Nat.leb_le; lia).
+  reflexivity.
+Qed.
+
+Lemma step_hit r tsel f i rem orem : wfts tsel -> fb f <= fe f -> fres f = r ->
+  intersection tsel (ts_of f) = Some (i, rem, orem) ->
+  match rem with Some rm => (tb rm <? tb i) || Nat.eqb (tb i) (te i) = false | None => True end ->
+  hit_ok r tsel f i rem (mkoff (CB (tb i - fb f)) (CB (te i - fb f))).
+Proof.
+  intros Ht Hf Hr H Hv. apply intersection_facts in H; [|exact Ht|exact Hf].
+  destruct H as (Hb & He & Hbe & Hrem). cbn [ts_of tb te] in Hb, He. unfold wfts in Ht.
+  unfold hit_ok. subst rem.
+  destruct (tb tsel <? tb i) eqn:E1.
+  - exfalso. cbn [tb] in Hv. rewrite E1 in Hv. discriminate.
+  - apply Nat.ltb_ge in E1. destruct (te i <? te tsel) eqn:E2.
+    + apply Nat.ltb_lt in E2. cbn [tb] in Hv. apply orb_false_iff in Hv. destruct Hv as [_ Hv].
+      apply Nat.eqb_neq in Hv. repeat split; try lia.
+    + apply Nat.ltb_ge in E2. repeat split; lia.
+Qed.
+
+Lemma scan_hit r tsel : wfts tsel -> forall fs k0 k i rem off,
+  Forall (fun f => fb f <= fe f) fs ->
+  scan r tsel k0 fs = SHit k i rem off ->
+  exists f, k0 <= k /\ nth_error fs (k - k0) = Some f /\ hit_ok r tsel f i rem off.
+Proof.
+  intros Ht. induction fs as [|f fs IH]; intros k0 k i rem off Hfs H; cbn [scan] in H; [discriminate|].
+  inversion Hfs as [|? ? Hf Hfs']; subst.
+  assert (Hrec : scan r tsel (S k0) fs = SHit k i rem off ->
+                 exists f0, k0 <= k /\ nth_error (f :: fs) (k - k0) = Some f0 /\ hit_ok r tsel f0 i rem off).
+  { intros H'. destruct (IH _ _ _ _ _ Hfs' H') as (f0 & Hk & Hn & Hh). exists f0. split; [lia|]. split; [|exact Hh].
+    replace (k - k0) with (S (k - S k0)) by lia. exact Hn. }
+  destruct (Nat.eqb (fres f) r) eqn:Er; [|exact (Hrec H)]. apply Nat.eqb_eq in Er.
+  destruct (intersection tsel (ts_of f)) as [[[i' rem'] orem']|] eqn:Ei; [|exact (Hrec H)].
+  rewrite (step_offset _ _ _ _ _ Ht Hf Ei) in H.
+  destruct rem' as [rm|].
+  - destruct ((tb rm <? tb i') || Nat.eqb (tb i') (te i')) eqn:Ev; [exact (Hrec H)|].
+    inversion H; subst. exists f. split; [lia|]. split; [rewrite Nat.sub_diag; reflexivity|].
+    apply (step_hit _ _ _ _ _ _ Ht Hf eq_refl Ei). exact Ev.
+  - inversion H; subst. exists f. split; [lia|]. split; [rewrite Nat.sub_diag; reflexivity|].
+    apply (step_hit _ _ _ _ _ _ Ht Hf eq_refl Ei). exact I.
+Qed.
+
+Lemma scan_nopanic r tsel : wfts tsel -> forall fs k0,
+  Forall (fun f => fb f <= fe f) fs -> scan r tsel k0 fs <> SPanic.
+Proof.
+  intros Ht. induction fs as [|f fs IH]; intros k0 Hfs; cbn [scan]; [discriminate|].
+  inversion Hfs as [|? ? Hf Hfs']; subst.
+  destruct (Nat.eqb (fres f) r); [|apply IH; exact Hfs'].
+  destruct (intersection tsel (ts_of f)) as [[[i' rem'] orem']|] eqn:Ei; [|apply IH; exact Hfs'].
+  rewrite (step_offset _ _ _ _ _ Ht Hf Ei).
+  destruct rem' as [rm|]; [|discriminate].
+  destruct ((tb rm <? tb i') || Nat.eqb (tb i') (te i')); [apply IH; exact Hfs'|discriminate].
+Qed.
+
+(** * selectors_per_side *)
+
+Lemma push_at_length {X} (x : X) l : forall i, length (push_at i x l) = length l.
+Proof.
+  induction l as [|c l IH]; intros i; destruct i; cbn [push_at length]; try reflexivity.
+  rewrite IH. reflexivity.
+Qed.
+
+Lemma nth_push_at_same {X} (x : X) l : forall i, i < length l -> nth i (push_at i x l) [] = nth i l [] ++ [x].
+Proof.
+  induction l as [|c l IH]; intros i Hi; cbn [length] in Hi; [lia|].
+  destruct i; cbn [push_at nth]; [reflexivity|]. apply IH. lia.
+Qed.
+
+Lemma nth_push_at_other {X} (x : X) l : forall i j, i <> j -> nth j (push_at i x l) [] = nth j l [].
+Proof.
+  induction l as [|c l IH]; intros i j Hij; destruct i; cbn [push_at]; try reflexivity;
+    destruct j; cbn [nth]; try reflexivity; try lia. apply IH. lia.
+Qed.
+
+(** * one text selection against all sides *)
+
+Definition hit_state (s : st) (j k : nat) (it : ts) (rem : option ts) (off : offset) : st :=
+  mkst (Some j) true (s_rels s ++ [(k, off)]) (push_at j (tb it, te it) (s_sels s))
+       (match rem with Some _ => true | None => s_reseg s end) true
+       (match rem with Some rm => rm :: s_buf s | None => s_buf s end).
+
+Definition wfside (sd : side) : Prop := Forall (fun f => fb f <= fe f) sd.
+
+Lemma try_sides_closed r tsel : forall sides i0 s j,
+  s_side s = Some j -> j < i0 -> try_sides r tsel i0 sides s = TOk s.
+Proof.
+  induction sides as [|sd sides IH]; intros i0 s j Hs Hj; cbn [try_sides]; [reflexivity|].
+  unfold side_open. rewrite Hs. replace (Nat.eqb j i0) with false by (symmetry; apply Nat.eqb_neq; lia).
+  apply (IH _ _ j Hs). lia.
+Qed.
+
+Lemma try_sides_spec r tsel : wfts tsel -> forall sides i0 s, Forall wfside sides ->
+  try_sides r tsel i0 sides s = TOk s
+  \/ exists j k it rem off, i0 <= j /\ j - i0 < length sides /\ side_open s j = true
+       /\ scan r tsel 0 (nth (j - i0) sides []) = SHit k it rem off
+       /\ try_sides r tsel i0 sides s = TOk (hit_state s j k it rem off).
+Proof.
+  intros Ht. induction sides as [|sd sides IH]; intros i0 s Hw; cbn [try_sides]; [left; reflexivity|].
+  inversion Hw as [|? ? Hsd Hw']; subst.
+  assert (Hrec : try_sides r tsel (S i0) sides s = TOk s
+     \/ exists j k it rem off, i0 <= j /\ j - i0 < length (sd :: sides) /\ side_open s j = true
+       /\ scan r tsel 0 (nth (j - i0) (sd :: sides) []) = SHit k it rem off
+       /\ try_sides r tsel (S i0) sides s = TOk (hit_state s j k it rem off)).
+  { destruct (IH (S i0) s Hw') as [H|(j & k & it & rem & off & H1 & H2 & H3 & H4 & H5)]; [left; exact H|].
+    right. exists j, k, it, rem, off. cbn [length]. repeat split; try lia; try assumption.
+    replace (j - i0) with (S (j - S i0)) by lia. exact H4. }
+  destruct (side_open s i0) eqn:Eo; [|exact Hrec].
+  destruct (scan r tsel 0 sd) as [| |k it rem off] eqn:Es.
+  - exact Hrec.
+  - exfalso. exact (scan_nopanic r tsel Ht sd 0 Hsd Es).
+  - right. exists i0, k, it, rem, off. cbn [length]. rewrite Nat.sub_diag. cbn [nth].
+    repeat split; try lia; try assumption.
+    apply (try_sides_closed r tsel sides (S i0) _ i0); [reflexivity|lia].
+Qed.
+
+(** * the invariant of the matching loops *)
+
+(* piece p of the source with its entry (refseqnr, offset): the piece lies inside fragment
+   refseqnr of side ss (a fragment in the resource of the source) and the offset is its position
+   in that fragment *)
+Definition good (V : list side) (r ss : nat) (p : nat * nat) (ko : nat * offset) : Prop :=
+  exists f, nth_error (nth ss V []) (fst ko) = Some f /\ fres f = r /\ fb f <= fst p
+            /\ fst p <= snd p /\ snd p <= fe f
+            /\ snd ko = mkoff (CB (fst p - fb f)) (CB (snd p - fb f)).
+
+(* the selectors of the source side so far *)
+Definition cur (s : st) : list (nat * nat) :=
+  match s_side s with Some ss => nth ss (s_sels s) [] | None => [] end.
+
+Definition Inv (V : list side) (r : nat) (s : st) : Prop :=
+  length (s_sels s) = length V /\
+  match s_side s with
+  | None => s_rels s = [] /\ (forall j, nth j (s_sels s) [] = [])
+  | Some ss => Forall2 (good V r ss) (nth ss (s_sels s) []) (s_rels s)
+               /\ (forall j, j <> ss -> nth j (s_sels s) [] = [])
+  end.
+
+Lemma hit_state_inv V r s tsel j k it rem off : wfts tsel -> Forall wfside V ->
+  Inv V r s -> side_open s j = true -> j < length V ->
+  scan r tsel 0 (nth j V []) = SHit k it rem off ->
+  Inv V r (hit_state s j k it rem off)
+  /\ cur (hit_state s j k it rem off) = cur s ++ [(tb it, te it)]
+  /\ exists f, hit_ok r tsel f it rem off.
+Proof.
+  intros Ht Hw (Hlen & Hinv) Ho Hj Hs.
+  assert (Hsd : wfside (nth j V [])).
+  { rewrite Forall_forall in Hw. apply Hw. apply nth_In. exact Hj. }
+  destruct (scan_hit r tsel Ht _ _ _ _ _ _ Hsd Hs) as (f & _ & Hn & Hh).
+  rewrite Nat.sub_0_r in Hn.
+  assert (Hg : good V r j (tb it, te it) (k, off)).
+  { destruct Hh as (H1 & H2 & H3 & H4 & H5 & H6 & H7 & _). exists f. cbn [fst snd]. repeat split; assumption. }
+  unfold Inv, cur, hit_state. cbn [s_side s_sels s_rels]. rewrite push_at_length.
+  unfold side_open in Ho. destruct (s_side s) as [ss|] eqn:Ess.
+  - apply Nat.eqb_eq in Ho. subst ss. destruct Hinv as (Hf2 & Hoth).
+    rewrite nth_push_at_same by lia. repeat split.
+    + exact Hlen.
+    + apply Forall2_app'; [exact Hf2|]. constructor; [exact Hg|constructor].
+    + intros j' Hj'. rewrite nth_push_at_other by lia. apply Hoth. exact Hj'.
+    + exists f. exact Hh.
+  - destruct Hinv as (Hr & Hall). rewrite nth_push_at_same by lia. rewrite Hr, Hall. cbn [app]. repeat split.
+    + exact Hlen.
+    + constructor; [exact Hg|constructor].
+    + intros j' Hj'. rewrite nth_push_at_other by lia. apply Hall.
+    + exists f. exact Hh.
+Qed.
+
+(** * the buffer walk of the complex branch *)
+
+Definition rng_ts (t : ts) : nat * nat := (tb t, te t).
+
+Lemma walk_inv V r : Forall wfside V -> forall fuel s s',
+  Inv V r s -> Forall wfts (s_buf s) -> walk fuel r V s = TOk s' ->
+  Inv V r s' /\ (forall c, s_side s = Some c -> s_side s' = Some c)
+  /\ (s_buf s <> [] -> s_side s' <> None)
+  /\ exists ps, cur s' = cur s ++ ps /\ is_reseg (map rng_ts (s_buf s)) ps = true.
+Proof.
+  intros Hw. induction fuel as [|fuel IH]; intros s s' Hinv Hbuf H; cbn [walk] in H; [discriminate|].
+  destruct (s_buf s) as [|tsel rest] eqn:Eb.
+  - inversion H; subst s'. split; [exact Hinv|]. split; [intros c Hc; exact Hc|]. split; [congruence|].
+    exists []. rewrite app_nil_r. split; reflexivity.
+  - inversion Hbuf as [|? ? Ht Hrest]; subst.
+    set (s0 := mkst (s_side s) (s_found s) (s_rels s) (s_sels s) (s_reseg s) false rest) in H.
+    destruct (try_sides_spec r tsel Ht V 0 s0 Hw) as [E|(j & k & it & rem & off & _ & Hj & Ho & Hs & E)];
+      rewrite E in H.
+    + cbn [s0 s_hit] in H. discriminate.
+    + rewrite Nat.sub_0_r in Hj, Hs. cbn [hit_state s_hit] in H.
+      assert (Hinv0 : Inv V r s0) by exact Hinv.
+      destruct (hit_state_inv V r s0 tsel j k it rem off Ht Hw Hinv0 Ho Hj Hs) as (Hinv1 & Hcur1 & f & Hh).
+      fold (hit_state s0 j k it rem off) in H.
+      assert (Hbuf1 : Forall wfts (s_buf (hit_state s0 j k it rem off))).
+      { cbn [hit_state s_buf s0]. destruct Hh as (_ & _ & _ & _ & _ & Hle & _ & Hrem).
+        destruct rem as [rm|]; [|exact Hrest]. destruct Hrem as (-> & _ & _). constructor; [|exact Hrest].
+        unfold wfts. cbn [tb te]. exact Hle. }
+      destruct (IH _ _ Hinv1 Hbuf1 H) as (Hinv' & Hside' & _ & ps & Hcur' & Hre).
+      split; [exact Hinv'|]. split; [|split].
+      * intros c Hc. apply Hside'. cbn [hit_state s_side]. unfold side_open in Ho. cbn [s0 s_side] in Ho.
+        rewrite Hc in Ho. apply Nat.eqb_eq in Ho. congruence.
+      * intros _ Hn. rewrite (Hside' j eq_refl) in Hn. discriminate.
+      * exists ((tb it, te it) :: ps). split.
+        -- rewrite Hcur', Hcur1. change (cur s0) with (cur s). rewrite <- app_assoc. reflexivity.
+        -- cbn [map is_reseg rng_ts fst snd take_chain].
+           destruct Hh as (_ & Hb & _ & Hbe & _ & Hle & _ & Hrem).
+           replace (Nat.eqb (tb it) (tb tsel)) with true by (symmetry; apply Nat.eqb_eq; exact Hb).
+           replace (tb it <=? te it) with true by (symmetry; apply Nat.leb_le; exact Hbe).
+           replace (te it <=? te tsel) with true by (symmetry; apply Nat.leb_le; exact Hle).
+           cbn [andb]. cbn [hit_state s_buf s0] in Hre. destruct rem as [rm|].
+           ++ destruct Hrem as (-> & Hlt & _).
+              replace (Nat.eqb (te it) (te tsel)) with false by (symmetry; apply Nat.eqb_neq; lia).
+              cbn [map is_reseg rng_ts tb te fst snd] in Hre. exact Hre.
+           ++ replace (Nat.eqb (te it) (te tsel)) with true by (symmetry; apply Nat.eqb_eq; exact Hrem).
+              exact Hre.
+Qed.
+
+(* the fuel of fuel_for always suffices *)
+Definition measure (buf : list ts) : nat := fold_right (fun t acc => S (te t - tb t) + acc) 0 buf.
+
+Lemma walk_fuel V r : Forall wfside V -> forall fuel s,
+  Forall wfts (s_buf s) -> measure (s_buf s) < fuel -> walk fuel r V s <> TFuel.
+Proof.
+  intros Hw. induction fuel as [|fuel IH]; intros s Hbuf Hm; [lia|]. cbn [walk].
+  destruct (s_buf s) as [|tsel rest] eqn:Eb; [discriminate|].
+  inversion Hbuf as [|? ? Ht Hrest]; subst.
+  set (s0 := mkst (s_side s) (s_found s) (s_rels s) (s_sels s) (s_reseg s) false rest).
+  destruct (try_sides_spec r tsel Ht V 0 s0 Hw) as [E|(j & k & it & rem & off & _ & Hj & Ho & Hs & E)];
+    rewrite E.
+  - cbn [s0 s_hit]. discriminate.
+  - cbn [hit_state s_hit]. fold (hit_state s0 j k it rem off). rewrite Nat.sub_0_r in Hj, Hs.
+    assert (Hsd : wfside (nth j V [])).
+    { rewrite Forall_forall in Hw. apply Hw. apply nth_In. exact Hj. }
+    destruct (scan_hit r tsel Ht _ _ _ _ _ _ Hsd Hs) as (f & _ & _ & Hh).
+    destruct Hh as (_ & Hb & _ & Hbe & _ & Hle & _ & Hrem).
+    cbn [measure fold_right] in Hm. fold (measure rest) in Hm.
+    apply IH; cbn [hit_state s_buf s0].
+    + destruct rem as [rm|]; [|exact Hrest]. destruct Hrem as (-> & _ & _). constructor; [|exact Hrest].
+      unfold wfts. cbn [tb te]. exact Hle.
+    + destruct rem as [rm|].
+      * destruct Hrem as (-> & Hlt & Hne). cbn [measure fold_right tb te]. fold (measure rest). lia.
+      * lia.
+Qed.
+
+(** * the simple branch *)
+
+Lemma inv_push V r s s' j k p off :
+  Inv V r s -> side_open s j = true -> j < length V -> good V r j p (k, off) ->
+  s_side s' = Some j -> s_rels s' = s_rels s ++ [(k, off)] -> s_sels s' = push_at j p (s_sels s) ->
+  Inv V r s' /\ cur s' = cur s ++ [p].
+Proof.
+  intros (Hlen & Hinv) Ho Hj Hg E1 E2 E3. unfold Inv, cur. rewrite E1, E2, E3, push_at_length.
+  unfold side_open in Ho. destruct (s_side s) as [ss|] eqn:Ess.
+  - apply Nat.eqb_eq in Ho. subst ss. destruct Hinv as (Hf2 & Hoth).
+    rewrite nth_push_at_same by lia. split; [split; [exact Hlen|split]|reflexivity].
+    + apply Forall2_app'; [exact Hf2|]. constructor; [exact Hg|constructor].
+    + intros j' Hj'. rewrite nth_push_at_other by lia. apply Hoth. exact Hj'.
+  - destruct Hinv as (Hr & Hall). rewrite nth_push_at_same by lia. rewrite Hr, Hall. cbn [app].
+    split; [split; [exact Hlen|split]|reflexivity].
+    + constructor; [exact Hg|constructor].
+    + intros j' Hj'. rewrite nth_push_at_other by lia. apply Hall.
+Qed.
+
+Definition simple_state (s : st) (j : nat) (it : ts) (off : offset) : st :=
+  mkst (Some j) true (s_rels s ++ [(0, off)]) (push_at j (tb it, te it) (s_sels s))
+       (s_reseg s) (s_hit s) (s_buf s).
+
+Lemma simple_sides_spec r tsel : wfts tsel -> forall frs i0 s, wfside frs ->
+  simple_sides r tsel i0 frs s = TOk s
+  \/ exists j f it off, i0 <= j /\ nth_error frs (j - i0) = Some f /\ side_open s j = true
+       /\ hit_ok r tsel f it None off
+       /\ simple_sides r tsel i0 frs s = TOk (simple_state s j it off).
+Proof.
+  intros Ht. induction frs as [|f frs IH]; intros i0 s Hw; cbn [simple_sides]; [left; reflexivity|].
+  inversion Hw as [|? ? Hf Hw']; subst.
+  assert (Hrec : simple_sides r tsel (S i0) frs s = TOk s
+     \/ exists j f0 it off, i0 <= j /\ nth_error (f :: frs) (j - i0) = Some f0 /\ side_open s j = true
+       /\ hit_ok r tsel f0 it None off
+       /\ simple_sides r tsel (S i0) frs s = TOk (simple_state s j it off)).
+  { destruct (IH (S i0) s Hw') as [H|(j & f0 & it & off & H1 & H2 & H3 & H4 & H5)]; [left; exact H|].
+    right. exists j, f0, it, off. split; [lia|]. split; [|split; [exact H3|split; [exact H4|exact H5]]].
+    replace (j - i0) with (S (j - S i0)) by lia. exact H2. }
+  destruct (Nat.eqb (fres f) r && side_open s i0) eqn:Ec; [|exact Hrec].
+  apply andb_true_iff in Ec. destruct Ec as [Er Eo]. apply Nat.eqb_eq in Er.
+  destruct (intersection tsel (ts_of f)) as [[[it rem] orem]|] eqn:Ei; [|exact Hrec].
+  destruct rem as [rm|]; [exact Hrec|].
+  rewrite (step_offset _ _ _ _ _ Ht Hf Ei).
+  right. exists i0, f, it, (mkoff (CB (tb it - fb f)) (CB (te it - fb f))).
+  rewrite Nat.sub_diag. split; [lia|]. split; [reflexivity|]. split; [exact Eo|]. split; [|reflexivity].
+  apply (step_hit _ _ _ _ _ _ Ht Hf Er Ei). exact I.
+Qed.
+
+(* every side of a simple transposition is one text selection *)
+Definition singletons (V : list side) : Prop := Forall (fun sd => length sd = 1) V.
+
+Lemma concat_singletons V : singletons V -> forall j f,
+  nth_error (concat V) j = Some f -> j < length V /\ nth j V [] = [f].
+Proof.
+  induction 1 as [|sd V Hsd HV IH]; intros j f H; cbn [concat] in H.
+  - destruct j; discriminate.
+  - destruct sd as [|g [|? ?]]; cbn [length] in Hsd; try discriminate. cbn [app] in H.
+    destruct j; cbn [nth_error] in H.
+    + inversion H; subst. cbn [length nth]. split; [lia|reflexivity].
+    + destruct (IH _ _ H) as [H1 H2]. cbn [length nth]. split; [lia|exact H2].
+Qed.
+
+Lemma simple_all_inv V r : singletons V -> wfside (concat V) -> forall src s s',
+  Inv V r s -> Forall wfts src -> simple_all r src (concat V) s = TOk s' ->
+  Inv V r s' /\ (forall c, s_side s = Some c -> s_side s' = Some c)
+  /\ length (cur s') <= length (cur s) + length src
+  /\ (length (cur s') = length (cur s) + length src -> cur s' = cur s ++ map rng_ts src).
+Proof.
+  intros Hsing Hw. induction src as [|tsel src IH]; intros s s' Hinv Hsrc H; cbn [simple_all] in H.
+  - inversion H; subst s'. split; [exact Hinv|]. split; [intros c Hc; exact Hc|]. cbn [length map].
+    split; [lia|]. intros _. rewrite app_nil_r. reflexivity.
+  - inversion Hsrc as [|? ? Ht Hsrc']; subst.
+    destruct (simple_sides_spec r tsel Ht (concat V) 0 s Hw) as [E|(j & f & it & off & _ & Hn & Ho & Hh & E)];
+      rewrite E in H.
+    + destruct (IH _ _ Hinv Hsrc' H) as (Hinv' & Hside' & Hle & _).
+      split; [exact Hinv'|]. split; [exact Hside'|]. cbn [length]. split; [lia|]. intros Heq. exfalso. lia.
+    + rewrite Nat.sub_0_r in Hn. destruct (concat_singletons V Hsing _ _ Hn) as [Hj Hnth].
+      assert (Hg : good V r j (tb it, te it) (0, off)).
+      { destruct Hh as (H1 & H2 & H3 & H4 & H5 & H6 & H7 & _). exists f. cbn [fst snd]. rewrite Hnth.
+        repeat split; try assumption. }
+      destruct (inv_push V r s (simple_state s j it off) j 0 (tb it, te it) off Hinv Ho Hj Hg
+                  eq_refl eq_refl eq_refl) as (Hinv1 & Hcur1).
+      destruct (IH _ _ Hinv1 Hsrc' H) as (Hinv' & Hside' & Hle & Heq).
+      rewrite Hcur1, app_length in Hle, Heq. cbn [length] in Hle, Heq.
+      split; [exact Hinv'|]. split; [|split].
+      * intros c Hc. apply Hside'. cbn [simple_state s_side]. unfold side_open in Ho. rewrite Hc in Ho.
+        apply Nat.eqb_eq in Ho. congruence.
+      * cbn [length]. lia.
+      * cbn [length map]. intros Hl. rewrite Heq by lia. rewrite <- app_assoc. cbn [app].
+        destruct Hh as (_ & Hb & _ & _ & _ & _ & _ & He). unfold rng_ts at 2. rewrite Hb, He. reflexivity.
+Qed.
+
+(** * well-formed transpositions *)
+
+Definition WfT (T : list text) (V : list side) : Prop :=
+  exists v0 rest, V = v0 :: rest
+    /\ Forall (fun sd => Forall (wff T) sd /\ Forall2 (fun f g => subf T f = subf T g) sd v0) V.
+
+Lemma wf_transp_WfT T V : wf_transp T V = true -> WfT T V.
+Proof.
+  unfold wf_transp. destruct V as [|v0 rest]; [discriminate|]. intros H. exists v0, rest. split; [reflexivity|].
+  rewrite forallb_forall in H. apply Forall_forall. intros sd Hsd. specialize (H sd Hsd).
+  apply andb_true_iff in H. destruct H as [H1 H2]. split.
+  - apply Forall_forall. intros f Hf. rewrite forallb_forall in H1. apply in_range_wff. apply H1. exact Hf.
+  - apply forallb2_Forall2 in H2. eapply Forall2_impl'; [|exact H2]. intros f g Hfg. unfold same_text in Hfg.
+    apply text_eqb_eq. exact Hfg.
+Qed.
+
+Lemma WfT_wfside T V : WfT T V -> Forall wfside V.
+Proof.
+  intros (v0 & rest & -> & H). eapply Forall_impl; [|exact H]. intros sd [Hsd _].
+  eapply Forall_impl; [|exact Hsd]. intros f (_ & Hf & _). exact Hf.
+Qed.
+
+Lemma WfT_nonempty T V : WfT T V -> 0 < length V.
+Proof. intros (v0 & rest & -> & _). cbn [length]. lia. Qed.
+
+(* fragment k of side j and fragment k of side j': both exist or neither, both are selections of
+   their texts and have the same text *)
+Lemma WfT_pair T V j j' k f : WfT T V -> j < length V -> j' < length V ->
+  nth_error (nth j V []) k = Some f ->
+  wff T f /\ exists g, nth_error (nth j' V []) k = Some g /\ wff T g /\ subf T f = subf T g.
+Proof.
+  intros (v0 & rest & EV & H) Hj Hj' Hk. rewrite Forall_forall in H.
+  destruct (H (nth j V []) (nth_In _ _ Hj)) as [Hw1 H1].
+  destruct (H (nth j' V []) (nth_In _ _ Hj')) as [Hw2 H2].
+  assert (Hkl : k < length (nth j V [])) by (apply nth_error_Some; congruence).
+  pose proof (Forall2_length' _ _ _ H1) as L1. pose proof (Forall2_length' _ _ _ H2) as L2.
+  pose proof (nth_error_nth' (nth j V []) f Hkl) as E1. rewrite Hk in E1. inversion E1 as [Ef].
+  assert (Hkl' : k < length (nth j' V [])) by lia.
+  pose proof (nth_error_nth' (nth j' V []) f Hkl') as E2.
+  rewrite Forall_forall in Hw1, Hw2. split.
+  - rewrite Ef. apply Hw1. apply nth_In. exact Hkl.
+  - exists (nth k (nth j' V []) f). split; [exact E2|]. split; [apply Hw2; apply nth_In; exact Hkl'|].
+    pose proof (Forall2_nth _ _ _ f f H1 k Hkl) as T1. pose proof (Forall2_nth _ _ _ f f H2 k Hkl') as T2.
+    cbv beta in T1, T2. rewrite T2, <- T1. congruence.
+Qed.
+
+Lemma same_text_length T f g : wff T f -> wff T g -> subf T f = subf T g -> fe f - fb f = fe g - fb g.
+Proof.
+  intros (_ & _ & Hf) (_ & _ & Hg) H. apply (f_equal (@length N)) in H. unfold subf in H.
+  rewrite !sub_length in H by assumption. exact H.
+Qed.
+
+(** * mapping into another side *)
+
+Definition lens_of (T : list text) : list nat := map (@length N) T.
+
+Lemma lens_nth T i : nth i (lens_of T) 0 = length (text_of T i).
+Proof. unfold lens_of, text_of. change 0 with (length (@nil N)). apply map_nth. Qed.
+
+(* piece p of the source (in resource r) and its image g in another side *)
+Definition image_ok (T : list text) (vj : side) (r : nat) (g : frag) (p : nat * nat) : Prop :=
+  wff T g /\ (exists f, In f vj /\ fres f = fres g) /\ subf T g = sub (text_of T r) (fst p) (snd p).
+
+Lemma map_rels_ok T V r ss j : WfT T V -> ss < length V -> j < length V -> forall ps rels,
+  Forall2 (good V r ss) ps rels ->
+  exists l, map_rels (lens_of T) (nth j V []) rels = TOk l /\ Forall2 (image_ok T (nth j V []) r) l ps.
+Proof.
+  intros HW Hss Hj. induction 1 as [|p [k off] ps rels Hg Hrest IH]; cbn [map_rels].
+  - exists []. split; [reflexivity|constructor].
+  - destruct Hg as (f & Hn & Hr & Hb & Hbe & He & Hoff). cbn [fst snd] in Hn, Hoff. subst off.
+    destruct (WfT_pair T V ss j k f HW Hss Hj Hn) as (Hwf & g & Hng & Hwg & Htxt).
+    rewrite Hng. pose proof (same_text_length T f g Hwf Hwg Htxt) as Hlen.
+    destruct Hwg as (Hg1 & Hg2 & Hg3). rewrite lens_nth.
+    unfold findtext_sel_ts, beginaligned, rng. cbn [fst snd o_begin o_end].
+    replace ((fe g - fb g <? fst p - fb f) || (fe g - fb g <? snd p - fb f)) with false
+      by (symmetry; apply orb_false_iff; split; apply Nat.ltb_ge; lia).
+    unfold resource_ts, beginaligned. cbn [o_begin o_end].
+    replace (length (text_of T (fres g)) <? fb g + (fst p - fb f)) with false by (symmetry; apply Nat.ltb_ge; lia).
+    replace (length (text_of T (fres g)) <? fb g + (snd p - fb f)) with false by (symmetry; apply Nat.ltb_ge; lia).
+    replace (fb g + (fst p - fb f) <=? fb g + (snd p - fb f)) with true by (symmetry; apply Nat.leb_le; lia).
+    destruct IH as (l & El & Hl). rewrite El. cbn [fst snd].
+    exists (mkfrag (fres g) (fb g + (fst p - fb f)) (fb g + (snd p - fb f)) :: l). split; [reflexivity|].
+    constructor; [|exact Hl]. unfold image_ok, wff, subf. cbn [fres fb fe]. split; [|split].
+    + repeat split; lia.
+    + exists g. split; [|reflexivity]. eapply nth_error_In. exact Hng.
+    + unfold subf in Htxt. rewrite Hr in Htxt.
+      rewrite (rel_offset_text _ _ _ _ _ _ (fst p - fb f) (snd p - fb f) (eq_sym Htxt)) by lia.
+      f_equal; lia.
+Qed.
+
+Definition frags_of (r : nat) (ps : list (nat * nat)) : list frag :=
+  map (fun p => mkfrag r (fst p) (snd p)) ps.
+
+Lemma map_sides_ok T V r ss sels rels ps : WfT T V -> ss < length V ->
+  (forall j, j <> ss -> nth j sels [] = []) -> nth ss sels [] = ps -> Forall2 (good V r ss) ps rels ->
+  forall suffix i0, i0 + length suffix = length V ->
+  (forall m, m < length suffix -> nth m suffix [] = nth (i0 + m) V []) ->
+  exists out, map_sides (lens_of T) r ss i0 suffix sels rels = TOk out /\ length out = length suffix
+    /\ forall m, m < length suffix ->
+         if Nat.eqb (i0 + m) ss then nth m out [] = frags_of r ps
+         else Forall2 (image_ok T (nth (i0 + m) V []) r) (nth m out []) ps.
+Proof.
+  intros HW Hss Hoth Hps Hgood. induction suffix as [|sd suffix IH]; intros i0 Hlen Hnth; cbn [map_sides].
+  - exists []. split; [reflexivity|]. split; [reflexivity|]. intros m Hm. cbn [length] in Hm. lia.
+  - cbn [length] in Hlen.
+    assert (Hsd : sd = nth i0 V []).
+    { specialize (Hnth 0). cbn [length nth] in Hnth. rewrite Nat.add_0_r in Hnth. apply Hnth. lia. }
+    destruct (IH (S i0)) as (out & Eo & Lo & Ho).
+    { lia. }
+    { intros m Hm. specialize (Hnth (S m)). cbn [length nth] in Hnth. rewrite Hnth by lia. f_equal. lia. }
+    rewrite Eo. destruct (Nat.eqb i0 ss) eqn:Ei.
+    + apply Nat.eqb_eq in Ei. subst i0. rewrite Hps.
+      exists (frags_of r ps :: out). split; [reflexivity|]. split; [cbn [length]; lia|].
+      intros m Hm. destruct m.
+      * rewrite Nat.add_0_r, Nat.eqb_refl. reflexivity.
+      * cbn [length] in Hm. specialize (Ho m). replace (ss + S m) with (S ss + m) by lia. cbn [nth]. apply Ho. lia.
+    + apply Nat.eqb_neq in Ei. rewrite (Hoth i0 Ei). cbn [map app].
+      destruct (map_rels_ok T V r ss i0 HW Hss ltac:(lia) ps rels Hgood) as (l & El & Hl).
+      rewrite Hsd, El.
+      exists (l :: out). split; [reflexivity|]. split; [cbn [length]; lia|].
+      intros m Hm. destruct m.
+      * rewrite Nat.add_0_r. replace (Nat.eqb i0 ss) with false by (symmetry; apply Nat.eqb_neq; exact Ei).
+        cbn [nth]. exact Hl.
+      * cbn [length] in Hm. specialize (Ho m). replace (i0 + S m) with (S i0 + m) by lia. cbn [nth]. apply Ho. lia.
+Qed.
+
+(** * coverage *)
+
+Lemma take_chain_cover (sd : side) (r : nat) : forall ps x b rest,
+  take_chain x b ps = Some rest ->
+  Forall (fun p => exists f, In f sd /\ fres f = r /\ fb f <= fst p /\ snd p <= fe f) ps ->
+  Forall (fun p => exists f, In f sd /\ fres f = r /\ fb f <= fst p /\ snd p <= fe f) rest
+  /\ forall q, x <= q < b -> exists f, In f sd /\ fres f = r /\ fb f <= q /\ q < fe f.
+Proof.
+  induction ps as [|p ps IH]; intros x b rest H Hall; cbn [take_chain] in H; [discriminate|].
+  inversion Hall as [|? ? Hp Hall']; subst.
+  destruct (Nat.eqb (fst p) x && (fst p <=? snd p) && (snd p <=? b)) eqn:Ec; [|discriminate].
+  apply andb_true_iff in Ec. destruct Ec as [Ec E3]. apply andb_true_iff in Ec. destruct Ec as [E1 E2].
+  apply Nat.eqb_eq in E1. apply Nat.leb_le in E2, E3.
+  destruct Hp as (f & Hin & Hr & Hb & He).
+  destruct (Nat.eqb (snd p) b) eqn:E4.
+  - apply Nat.eqb_eq in E4. inversion H; subst rest. split; [exact Hall'|].
+    intros q Hq. exists f. repeat split; try assumption; lia.
+  - destruct (IH _ _ _ H Hall') as (Hrest & Hcov). split; [exact Hrest|].
+    intros q Hq. destruct (Nat.lt_ge_cases q (snd p)) as [Hlt|Hge].
+    + exists f. repeat split; try assumption; lia.
+    + apply Hcov. lia.
+Qed.
+
+Lemma covered_of_reseg (sd : side) (r : nat) : forall src ps, is_reseg src ps = true ->
+  Forall (fun p => exists f, In f sd /\ fres f = r /\ fb f <= fst p /\ snd p <= fe f) ps ->
+  covered sd r src = true.
+Proof.
+  unfold covered. induction src as [|p src IH]; intros ps H Hall; cbn [is_reseg forallb] in *; [reflexivity|].
+  destruct (take_chain (fst p) (snd p) ps) as [rest|] eqn:Et; [|discriminate].
+  destruct (take_chain_cover sd r _ _ _ _ Et Hall) as (Hrest & Hcov).
+  apply andb_true_iff. split; [|exact (IH _ H Hrest)].
+  apply forallb_forall. intros q Hq. apply in_seq in Hq.
+  destruct (Hcov q ltac:(lia)) as (f & Hin & Hr & Hb & He).
+  apply existsb_exists. exists f. split; [exact Hin|].
+  rewrite !andb_true_iff, Nat.eqb_eq, Nat.leb_le, Nat.ltb_lt. repeat split; assumption.
+Qed.
+
+Lemma is_reseg_self : forall src, Forall (fun p => fst p <= snd p) src -> is_reseg src src = true.
+Proof.
+  induction 1 as [|p src Hp _ IH]; cbn [is_reseg take_chain]; [reflexivity|].
+  rewrite Nat.eqb_refl. replace (fst p <=? snd p) with true by (symmetry; apply Nat.leb_le; exact Hp).
+  rewrite Nat.leb_refl, Nat.eqb_refl. cbn [andb]. exact IH.
+Qed.
+
+Lemma is_reseg_nonempty src ps : src <> [] -> is_reseg src ps = true -> ps <> [].
+Proof. destruct src as [|p src]; [congruence|]. intros _ H ->. cbn [is_reseg take_chain] in H. discriminate. Qed.
+
+(** * the observation of a result *)
+
+Lemma nth_flagged res j : j < length (r_sides res) ->
+  nth j (flagged res) (0, []) =
+  ((if Nat.eqb j (r_side res) then (if r_newsrc res then 2 else 1) else 0), nth j (r_sides res) []).
+Proof.
+  intros Hj. unfold flagged.
+  set (F := fun i : nat => ((if Nat.eqb i (r_side res) then if r_newsrc res then 2 else 1 else 0, nth i (r_sides res) []) : oside)).
+  rewrite (nth_indep _ (0, []) (F 0)) by (rewrite map_length, seq_length; exact Hj).
+  rewrite map_nth, seq_nth by exact Hj. reflexivity.
+Qed.
+
+Lemma find_flag_none (F : nat -> oside) ss : forall m i0, ss < i0 ->
+  (forall i, i <> ss -> fst (F i) = 0) -> count_flags (map F (seq i0 m)) = 0.
+Proof.
+  unfold count_flags. induction m as [|m IH]; intros i0 Hi HF; cbn [seq map filter]; [reflexivity|].
+  rewrite (HF i0) by lia. cbn [Nat.eqb negb]. apply IH; [lia|exact HF].
+Qed.
+
+Lemma flags_unique (F : nat -> oside) ss : fst (F ss) <> 0 -> (forall i, i <> ss -> fst (F i) = 0) ->
+  forall m i0, i0 <= ss < i0 + m ->
+  find_flag i0 (map F (seq i0 m)) = Some ss /\ count_flags (map F (seq i0 m)) = 1.
+Proof.
+  intros Hss HF. induction m as [|m IH]; intros i0 Hi; [lia|]. cbn [seq map find_flag].
+  unfold count_flags. cbn [filter]. destruct (F i0) as [fl x] eqn:EF. cbn [fst].
+  destruct (Nat.eq_dec i0 ss) as [->|Hne].
+  - rewrite EF in Hss. cbn [fst] in Hss. replace (Nat.eqb fl 0) with false by (symmetry; apply Nat.eqb_neq; exact Hss).
+    split; [reflexivity|]. cbn [negb length]. f_equal. apply (find_flag_none F ss); [lia|exact HF].
+  - pose proof (HF i0 Hne) as H0. rewrite EF in H0. cbn [fst] in H0. subst fl. cbn [Nat.eqb negb].
+    apply IH. lia.
+Qed.
+
+(** * the result satisfies the specification *)
+
+Lemma Forall2_map_r {X Y Z} (P : X -> Y -> Prop) (Q : X -> Z -> Prop) (h : Y -> Z) l m :
+  (forall x y, P x y -> Q x (h y)) -> Forall2 P l m -> Forall2 Q l (map h m).
+Proof. intros H. induction 1; cbn [map]; constructor; auto. Qed.
+
+Lemma good_inside T V r ss ps rels : WfT T V -> ss < length V -> Forall2 (good V r ss) ps rels ->
+  Forall (fun p => exists f, In f (nth ss V []) /\ wff T f /\ fres f = r /\ fb f <= fst p
+                             /\ fst p <= snd p /\ snd p <= fe f) ps.
+Proof.
+  intros HW Hss. induction 1 as [|p ko ps rels Hg _ IH]; constructor; [|exact IH].
+  destruct Hg as (f & Hn & Hr & Hb & Hbe & He & _). exists f.
+  destruct (WfT_pair T V ss ss _ f HW Hss Hss Hn) as (Hwf & _).
+  split; [eapply nth_error_In; exact Hn|]. split; [exact Hwf|]. repeat split; assumption.
+Qed.
+
+Lemma rng_frags_of r ps : map rng (frags_of r ps) = ps.
+Proof.
+  unfold frags_of. rewrite map_map. induction ps as [|[x y] ps IH]; cbn [map]; [reflexivity|].
+  unfold rng at 1. cbn [fb fe fst snd]. rewrite IH. reflexivity.
+Qed.
+
+Lemma wf_src_facts T r src : wf_src T r src = true ->
+  src <> [] /\ Forall (fun p => fst p <= snd p) src.
+Proof.
+  unfold wf_src. intros H. apply andb_true_iff in H. destruct H as [H1 H2]. split.
+  - destruct src; [discriminate|congruence].
+  - apply Forall_forall. intros p Hp. rewrite forallb_forall in H2. specialize (H2 p Hp).
+    apply in_range_wff in H2. destruct H2 as (_ & H2 & _). exact H2.
+Qed.
+
+Lemma tail_sound T V r src cfg existing s ss res :
+  WfT T V -> wf_src T r src = true ->
+  Inv V r s -> s_side s = Some ss -> is_reseg src (nth ss (s_sels s) []) = true ->
+  (forall c, cfg = Some c -> ss = c) ->
+  match map_sides (lens_of T) r ss 0 V (s_sels s) (s_rels s) with
+  | TOk sides =>
+      match length (nth ss (s_sels s) []) with
+      | 0 => TErr
+      | _ => TOk (mkres ss (s_reseg s || negb existing) sides)
+      end
+  | TErr => TErr | TPanic => TPanic | TFuel => TFuel
+  end = TOk res ->
+  check_forward T V r src cfg (flagged res) = true.
+Proof.
+  intros HW Hsrc (Hlen & Hinv) Hside Hre Hcfg H. rewrite Hside in Hinv. destruct Hinv as (Hgood & Hoth).
+  set (ps := nth ss (s_sels s) []) in *.
+  destruct (wf_src_facts T r src Hsrc) as (Hne & Hsw).
+  pose proof (is_reseg_nonempty src ps Hne Hre) as Hps.
+  assert (Hss : ss < length V).
+  { rewrite <- Hlen. destruct (Nat.lt_ge_cases ss (length (s_sels s))) as [Hl|Hl]; [exact Hl|].
+    exfalso. apply Hps. unfold ps. apply nth_overflow. exact Hl. }
+  destruct (map_sides_ok T V r ss (s_sels s) (s_rels s) ps HW Hss Hoth eq_refl Hgood V 0 eq_refl
+              ltac:(intros; reflexivity)) as (out & Eo & Lo & Ho).
+  rewrite Eo in H. destruct (length ps) eqn:El; [destruct ps; [congruence|discriminate]|].
+  unfold side in *.
+  inversion H; subst res. clear H.
+  pose proof (good_inside T V r ss ps (s_rels s) HW Hss Hgood) as Hin.
+  unfold check_forward.
+  set (rs := mkres ss (s_reseg s || negb existing) out).
+  set (F := fun i : nat => ((if Nat.eqb i (r_side rs) then if r_newsrc rs then 2 else 1 else 0, nth i (r_sides rs) []) : oside)).
+  assert (Hflags : find_flag 0 (flagged rs) = Some ss /\ count_flags (flagged rs) = 1).
+  { apply (flags_unique F ss).
+    - unfold F. unfold rs; cbn [r_side fst]. rewrite Nat.eqb_refl. destruct (r_newsrc _); discriminate.
+    - intros i Hi. unfold F. unfold rs; cbn [r_side fst]. replace (Nat.eqb i ss) with false by (symmetry; apply Nat.eqb_neq; exact Hi). reflexivity.
+    - unfold rs; cbn [r_sides]. lia. }
+  destruct Hflags as (Hff & Hcf). rewrite Hff, Hcf.
+  assert (Hos : snd (nth ss (flagged rs) (0, [])) = frags_of r ps).
+  { rewrite nth_flagged by (unfold rs; cbn [r_sides]; lia). unfold rs; cbn [snd r_sides].
+    specialize (Ho ss ltac:(lia)). cbn [Nat.add] in Ho. rewrite Nat.eqb_refl in Ho. exact Ho. }
+  assert (Hfl : length (flagged rs) = length out) by (unfold flagged; rewrite map_length, seq_length; reflexivity).
+  rewrite Hos, Hfl.
+  repeat (apply andb_true_iff; split).
+  - reflexivity.
+  - apply Nat.eqb_eq. exact Lo.
+  - destruct cfg as [c|]; [|reflexivity]. apply Nat.eqb_eq. symmetry. apply Hcfg. reflexivity.
+  - apply forallb_forall. intros g Hg. unfold frags_of in Hg. apply in_map_iff in Hg.
+    destruct Hg as (p & <- & Hp). rewrite Forall_forall in Hin.
+    destruct (Hin p Hp) as (f & _ & (Hf1 & Hf2 & Hf3) & Hr & Hb & Hbe & He).
+    cbn [fres]. rewrite Nat.eqb_refl. cbn [andb]. apply in_range_wff. unfold wff. cbn [fres fb fe].
+    subst r. repeat split; try assumption. lia.
+  - rewrite rng_frags_of. exact Hre.
+  - apply (covered_of_reseg _ r src ps Hre). eapply Forall_impl; [|exact Hin].
+    intros p (f & H1 & _ & H3 & H4 & _ & H6). exists f. repeat split; assumption.
+  - apply forallb_forall. intros j Hj. apply in_seq in Hj. destruct (Nat.eqb j ss) eqn:Ej; [reflexivity|].
+    cbn [orb]. rewrite nth_flagged by (unfold rs; cbn [r_sides]; lia). unfold rs; cbn [snd r_sides].
+    specialize (Ho j ltac:(lia)). cbn [Nat.add] in Ho. rewrite Ej in Ho.
+    unfold target_ok. apply forallb2_Forall2. unfold frags_of.
+    eapply Forall2_map_r; [|exact Ho]. intros g p (Hg1 & (f & Hf1 & Hf2) & Hg3). cbv beta.
+    apply andb_true_iff. split; [apply andb_true_iff; split|].
+    + apply in_range_wff. exact Hg1.
+    + apply existsb_exists. exists f. split; [exact Hf1|]. apply Nat.eqb_eq. exact Hf2.
+    + unfold same_text. apply text_eqb_eq. rewrite Hg3. reflexivity.
+Qed.
+
+Lemma nth_repeat_nil {X} n : forall j, nth j (repeat (@nil X) n) [] = [].
+Proof. induction n as [|n IH]; intros [|j]; cbn [repeat nth]; try reflexivity. apply IH. Qed.
+
+Lemma init_inv V r cfg buf : Inv V r (init_st (length V) cfg buf).
+Proof.
+  unfold Inv, init_st. cbn [s_sels s_side s_rels]. split; [apply repeat_length|].
+  destruct cfg as [c|].
+  - rewrite nth_repeat_nil. split; [constructor|]. intros j _. apply nth_repeat_nil.
+  - split; [reflexivity|]. intros j. apply nth_repeat_nil.
+Qed.
+
+Lemma cur_init n cfg buf : cur (init_st n cfg buf) = [].
+Proof. unfold cur, init_st. cbn [s_side s_sels]. destruct cfg; [apply nth_repeat_nil|reflexivity]. Qed.
+
+Lemma rng_ts_of_rng src : map rng_ts (map ts_of_rng src) = src.
+Proof.
+  rewrite map_map. induction src as [|[x y] src IH]; cbn [map]; [reflexivity|]. rewrite IH. reflexivity.
+Qed.
+
+Lemma buf_wf src : Forall (fun p => fst p <= snd p) src -> Forall wfts (map ts_of_rng src).
+Proof. induction 1; cbn [map]; constructor; auto. Qed.
+
+(* transpose_text / out_wf / uncovered_fails in one: whatever transpose() returns for a well-formed
+   transposition and a source inside its text passes the specification *)
+Theorem transpose_sound T V r src cfg existing complex fuel res :
+  wf_transp T V = true -> wf_src T r src = true -> (complex = false -> singletons V) ->
+  transpose fuel (lens_of T) complex V r src cfg existing = TOk res ->
+  check_forward T V r src cfg (flagged res) = true.
+Proof.
+  intros HwT Hsrc Hsing H. pose proof (wf_transp_WfT T V HwT) as HW.
+  pose proof (WfT_wfside T V HW) as Hws.
+  destruct (wf_src_facts T r src Hsrc) as (Hne & Hsw).
+  pose proof (buf_wf src Hsw) as Hbuf.
+  unfold transpose in H. destruct complex.
+  - destruct (walk fuel r V (init_st (length V) cfg (map ts_of_rng src))) as [s| | |] eqn:Ew; try discriminate.
+    destruct (s_side s) as [ss|] eqn:Es; [|discriminate].
+    destruct (walk_inv V r Hws fuel _ s (init_inv V r cfg _) Hbuf Ew) as (Hinv & Hside & _ & ps & Hcur & Hre).
+    rewrite cur_init in Hcur. cbn [app] in Hcur. unfold cur in Hcur. rewrite Es in Hcur.
+    cbn [init_st s_buf] in Hre. rewrite rng_ts_of_rng in Hre.
+    apply (tail_sound T V r src cfg existing s ss res HW Hsrc Hinv Es).
+    + rewrite Hcur. exact Hre.
+    + intros c Hc. subst cfg. specialize (Hside c eq_refl). congruence.
+    + exact H.
+  - specialize (Hsing eq_refl).
+    assert (Hwc : wfside (concat V)).
+    { unfold wfside. apply Forall_concat. exact Hws. }
+    destruct (simple_all r (map ts_of_rng src) (concat V) (init_st (length V) cfg (map ts_of_rng src)))
+      as [s| | |] eqn:Ea; try discriminate.
+    destruct (s_side s) as [ss|] eqn:Es; [|discriminate].
+    destruct (s_found s && Nat.eqb (length (nth ss (s_sels s) [])) (length src) && (ss <? length (s_sels s))) eqn:Ec;
+      [|discriminate].
+    rewrite Es in H.
+    apply andb_true_iff in Ec. destruct Ec as [Ec _]. apply andb_true_iff in Ec. destruct Ec as [_ Ec].
+    apply Nat.eqb_eq in Ec.
+    destruct (simple_all_inv V r Hsing Hwc _ _ s (init_inv V r cfg _) Hbuf Ea) as (Hinv & Hside & _ & Heq).
+    rewrite cur_init in Heq. cbn [app length] in Heq. unfold cur in Heq. rewrite Es in Heq.
+    rewrite map_length in Heq. specialize (Heq Ec). rewrite rng_ts_of_rng in Heq.
+    apply (tail_sound T V r src cfg existing s ss res HW Hsrc Hinv Es).
+    + rewrite Heq. apply is_reseg_self. exact Hsw.
+    + intros c Hc. subst cfg. specialize (Hside c eq_refl). congruence.
+    + exact H.
+Qed.
+
+(** * no panic, enough fuel *)
+
+Lemma walk_nopanic V r : Forall wfside V -> forall fuel s, Forall wfts (s_buf s) -> walk fuel r V s <> TPanic.
+Proof.
+  intros Hw. induction fuel as [|fuel IH]; intros s Hbuf; cbn [walk]; [discriminate|].
+  destruct (s_buf s) as [|tsel rest] eqn:Eb; [discriminate|].
+  inversion Hbuf as [|? ? Ht Hrest]; subst.
+  set (s0 := mkst (s_side s) (s_found s) (s_rels s) (s_sels s) (s_reseg s) false rest).
+  destruct (try_sides_spec r tsel Ht V 0 s0 Hw) as [E|(j & k & it & rem & off & _ & Hj & Ho & Hs & E)]; rewrite E.
+  - cbn [s0 s_hit]. discriminate.
+  - cbn [hit_state s_hit]. fold (hit_state s0 j k it rem off). rewrite Nat.sub_0_r in Hj, Hs.
+    assert (Hsd : wfside (nth j V [])) by (rewrite Forall_forall in Hw; apply Hw; apply nth_In; exact Hj).
+    destruct (scan_hit r tsel Ht _ _ _ _ _ _ Hsd Hs) as (f & _ & _ & Hh).
+    destruct Hh as (_ & _ & _ & _ & _ & Hle & _ & Hrem).
+    apply IH. cbn [hit_state s_buf s0]. destruct rem as [rm|]; [|exact Hrest].
+    destruct Hrem as (-> & _ & _). constructor; [|exact Hrest]. unfold wfts. cbn [tb te]. exact Hle.
+Qed.
+
+Lemma simple_all_total r frs : wfside frs -> forall src s, Forall wfts src ->
+  exists s', simple_all r src frs s = TOk s'.
+Proof.
+  intros Hw. induction src as [|tsel src IH]; intros s Hsrc; cbn [simple_all]; [exists s; reflexivity|].
+  inversion Hsrc as [|? ? Ht Hsrc']; subst.
+  destruct (simple_sides_spec r tsel Ht frs 0 s Hw) as [E|(j & f & it & off & _ & _ & _ & _ & E)]; rewrite E;
+    apply IH; exact Hsrc'.
+Qed.
+
+Lemma measure_fuel src : measure (map ts_of_rng src) < fuel_for src.
+Proof.
+  unfold fuel_for. apply Nat.lt_succ_r. induction src as [|p src IH]; cbn [map measure fold_right]; [lia|].
+  fold (measure (map ts_of_rng src)). unfold ts_of_rng at 1 2. cbn [tb te]. lia.
+Qed.
+
+(* with the fuel of fuel_for the model never runs out of fuel and never reaches a panic site *)
+Theorem transpose_total T V r src cfg existing complex fuel :
+  wf_transp T V = true -> wf_src T r src = true -> (complex = false -> singletons V) ->
+  fuel_for src <= fuel ->
+  transpose fuel (lens_of T) complex V r src cfg existing = TErr
+  \/ exists res, transpose fuel (lens_of T) complex V r src cfg existing = TOk res.
+Proof.
+  intros HwT Hsrc Hsing Hfuel. pose proof (wf_transp_WfT T V HwT) as HW.
+  pose proof (WfT_wfside T V HW) as Hws.
+  destruct (wf_src_facts T r src Hsrc) as (Hne & Hsw).
+  pose proof (buf_wf src Hsw) as Hbuf.
+  assert (Htail : forall s ss, Inv V r s -> s_side s = Some ss -> is_reseg src (nth ss (s_sels s) []) = true ->
+    exists out n, map_sides (lens_of T) r ss 0 V (s_sels s) (s_rels s) = TOk out /\ length (nth ss (s_sels s) []) = S n).
+  { intros s ss (Hlen & Hinv) Es Hre. rewrite Es in Hinv. destruct Hinv as (Hgood & Hoth).
+    pose proof (is_reseg_nonempty src _ Hne Hre) as Hps.
+    assert (Hss : ss < length V).
+    { rewrite <- Hlen. destruct (Nat.lt_ge_cases ss (length (s_sels s))) as [Hl|Hl]; [exact Hl|].
+      exfalso. apply Hps. apply nth_overflow. exact Hl. }
+    destruct (map_sides_ok T V r ss (s_sels s) (s_rels s) _ HW Hss Hoth eq_refl Hgood V 0 eq_refl
+                ltac:(intros; reflexivity)) as (out & Eo & _ & _).
+    exists out. destruct (nth ss (s_sels s) []) as [|p ps] eqn:E; [congruence|]. exists (length ps). split; [exact Eo|reflexivity]. }
+  unfold transpose. destruct complex.
+  - pose proof (walk_nopanic V r Hws fuel (init_st (length V) cfg (map ts_of_rng src)) Hbuf) as Hnp.
+    pose proof (walk_fuel V r Hws fuel (init_st (length V) cfg (map ts_of_rng src)) Hbuf
+                  ltac:(cbn [init_st s_buf]; pose proof (measure_fuel src); lia)) as Hnf.
+    destruct (walk fuel r V (init_st (length V) cfg (map ts_of_rng src))) as [s| | |] eqn:Ew; try congruence;
+      [|left; reflexivity].
+    destruct (s_side s) as [ss|] eqn:Es; [|left; reflexivity].
+    destruct (walk_inv V r Hws fuel _ s (init_inv V r cfg _) Hbuf Ew) as (Hinv & _ & _ & ps & Hcur & Hre).
+    rewrite cur_init in Hcur. cbn [app] in Hcur. unfold cur in Hcur. rewrite Es in Hcur.
+    cbn [init_st s_buf] in Hre. rewrite rng_ts_of_rng in Hre. rewrite <- Hcur in Hre.
+    destruct (Htail s ss Hinv Es Hre) as (out & n & Eo & En). rewrite Eo, En. right. eexists. reflexivity.
+  - specialize (Hsing eq_refl).
+    assert (Hwc : wfside (concat V)) by (unfold wfside; apply Forall_concat; exact Hws).
+    destruct (simple_all_total r (concat V) Hwc (map ts_of_rng src) (init_st (length V) cfg (map ts_of_rng src)) Hbuf)
+      as (s & Ea). rewrite Ea.
+    destruct (s_side s) as [ss|] eqn:Es; [|left; reflexivity].
+    destruct (s_found s && Nat.eqb (length (nth ss (s_sels s) [])) (length src) && (ss <? length (s_sels s))) eqn:Ec;
+      [|left; reflexivity].
+    rewrite Es.
+    apply andb_true_iff in Ec. destruct Ec as [Ec _]. apply andb_true_iff in Ec. destruct Ec as [_ Ec].
+    apply Nat.eqb_eq in Ec.
+    destruct (simple_all_inv V r Hsing Hwc _ _ s (init_inv V r cfg _) Hbuf Ea) as (Hinv & _ & _ & Heq).
+    rewrite cur_init in Heq. cbn [app length] in Heq. unfold cur in Heq. rewrite Es in Heq.
+    rewrite map_length in Heq. specialize (Heq Ec). rewrite rng_ts_of_rng in Heq.
+    assert (Hre : is_reseg src (nth ss (s_sels s) []) = true) by (rewrite Heq; apply is_reseg_self; exact Hsw).
+    destruct (Htail s ss Hinv Es Hre) as (out & n & Eo & En). rewrite Eo, En. right. eexists. reflexivity.
+Qed.
+
+(* uncovered_fails: a source with a codepoint outside every fragment (in its resource) of every
+   side cannot be transposed *)
+Theorem uncovered_fails T V r src cfg existing complex fuel :
+  wf_transp T V = true -> wf_src T r src = true -> (complex = false -> singletons V) ->
+  (forall s, covered (nth s V []) r src = false) ->
+  forall res, transpose fuel (lens_of T) complex V r src cfg existing <> TOk res.
+Proof.
+  intros HwT Hsrc Hsing Hunc res H. pose proof (transpose_sound _ _ _ _ _ _ _ _ _ HwT Hsrc Hsing H) as Hc.
+  unfold check_forward in Hc. destruct (find_flag 0 (flagged res)) as [s|]; [|discriminate].
+  repeat (apply andb_true_iff in Hc; destruct Hc as [Hc ?]).
+  rewrite Hunc in *. discriminate.
+Qed.
+
+(** * the entry point for annotations, and the run-time form of the hypotheses *)
+
+Lemma transpose_annotation_eq fuel lens complex V r src cfg : src <> [] ->
+  transpose_annotation fuel lens complex V (frags_of r src) cfg = transpose fuel lens complex V r src cfg true.
+Proof.
+  intros Hne. unfold transpose_annotation. destruct src as [|p src]; [congruence|].
+  cbn [frags_of map fres]. change (map (fun p0 => mkfrag r (fst p0) (snd p0)) src) with (frags_of r src).
+  replace (forallb (fun g => Nat.eqb (fres g) r) (mkfrag r (fst p) (snd p) :: frags_of r src)) with true.
+  - change (mkfrag r (fst p) (snd p) :: frags_of r src) with (frags_of r (p :: src)). rewrite rng_frags_of. reflexivity.
+  - symmetry. apply forallb_forall. intros g Hg. change (mkfrag r (fst p) (snd p) :: frags_of r src) with (frags_of r (p :: src)) in Hg.
+    unfold frags_of in Hg. apply in_map_iff in Hg. destruct Hg as (q & <- & _). cbn [fres]. apply Nat.eqb_refl.
+Qed.
+
+Lemma wf_input_facts T complex V r src : wf_input T complex V r src = true ->
+  wf_transp T V = true /\ wf_src T r src = true /\ (complex = false -> singletons V).
+Proof.
+  unfold wf_input. intros H. apply andb_true_iff in H. destruct H as [H H3]. apply andb_true_iff in H.
+  destruct H as [H1 H2]. split; [exact H1|]. split; [exact H2|]. intros ->. cbn [orb] in H3.
+  unfold singletons. apply Forall_forall. intros sd Hsd. rewrite forallb_forall in H3. apply Nat.eqb_eq. apply H3. exact Hsd.
+Qed.
+
+(** * transposing back over the new transposition *)
+
+Lemma intersection_self t : tb t <= te t -> intersection t t = Some (mkts None (tb t) (te t), None, None).
+Proof.
+  intros H. unfold intersection.
+  repeat match goal with
+         | |- context [if ?c then _ else _] => let E := fresh "E" in destruct c eqn:E
+         end; try reflexivity; exfalso; lia.
+Qed.
+
+Lemma apart_none f g : fb f <= fe f -> fb g <= fe g -> fres f = fres g -> apart f g = true ->
+  intersection (ts_of f) (ts_of g) = None.
+Proof.
+  intros Hf Hg Hr H. unfold apart in H. rewrite Hr, Nat.eqb_refl in H. cbn [negb orb] in H.
+  unfold intersection, ts_of. cbn [tb te].
+  repeat match goal with
+         | _ : context [if ?c then _ else _] |- _ => let E := fresh "E" in destruct c eqn:E
+         | |- context [if ?c then _ else _] => let E := fresh "E" in destruct c eqn:E
+         end; try reflexivity; exfalso; lia.
+Qed.
+
+Lemma apart_sym f g : apart f g = apart g f.
+Proof.
+  unfold apart. rewrite (Nat.eqb_sym (fres f) (fres g)).
+  rewrite (orb_comm (Nat.eqb (fb f) (fe f)) (Nat.eqb (fb g) (fe g))).
+  destruct (Nat.eqb (fb g) (fe g) || Nat.eqb (fb f) (fe f)); f_equal; apply orb_comm.
+Qed.
+
+Definition full (f : frag) : offset := mkoff (CB (fb f - fb f)) (CB (fe f - fb f)).
+
+Lemma scan_exact r f post : fres f = r -> fb f <= fe f -> forall pre k0,
+  Forall (fun g => fb g <= fe g) pre ->
+  (forall g, In g pre -> fres g = r -> apart g f = true) ->
+  scan r (ts_of f) k0 (pre ++ f :: post) = SHit (k0 + length pre) (ts_of f) None (full f).
+Proof.
+  intros Hr Hf. induction pre as [|g pre IH]; intros k0 Hw Hap; cbn [app scan length].
+  - rewrite Hr, Nat.eqb_refl. rewrite intersection_self by exact Hf. cbn [ts_of tb te].
+    unfold relative_offset, relative_begin, relative_end, rng. cbn [fst snd].
+    rewrite !Nat.leb_refl. replace (fb f <=? fe f) with true by (symmetry; apply Nat.leb_le; exact Hf).
+    cbn [andb]. rewrite Nat.add_0_r. reflexivity.
+  - inversion Hw as [|? ? Hg Hw']; subst.
+    replace (k0 + S (length pre)) with (S k0 + length pre) by lia.
+    destruct (Nat.eqb (fres g) (fres f)) eqn:Er.
+    + apply Nat.eqb_eq in Er.
+      rewrite (apart_none f g Hf Hg (eq_sym Er)) by (rewrite apart_sym; apply Hap; [left; reflexivity|exact Er]).
+      apply IH; [exact Hw'|]. intros g' Hg'. apply Hap. right. exact Hg'.
+    + apply IH; [exact Hw'|]. intros g' Hg'. apply Hap. right. exact Hg'.
+Qed.
+
+Lemma scan_other_res r tsel : forall fs k0, (forall g, In g fs -> fres g <> r) -> scan r tsel k0 fs = SNo.
+Proof.
+  induction fs as [|g fs IH]; intros k0 H; cbn [scan]; [reflexivity|].
+  replace (Nat.eqb (fres g) r) with false by (symmetry; apply Nat.eqb_neq; apply H; left; reflexivity).
+  apply IH. intros g' Hg'. apply H. right. exact Hg'.
+Qed.
+
+(* the side is known to be j, or it is still open and no earlier side lies in resource r *)
+Definition side_is (O : list side) (r j : nat) (s : st) : Prop :=
+  s_side s = Some j
+  \/ (s_side s = None /\ forall i g, i < j -> In g (nth i O []) -> fres g <> r).
+
+Lemma try_sides_at O r j tsel k it rem off : forall suffix i0 s,
+  side_is O r j s -> i0 <= j -> j - i0 < length suffix ->
+  (forall m, m < length suffix -> nth m suffix [] = nth (i0 + m) O []) ->
+  scan r tsel 0 (nth j O []) = SHit k it rem off ->
+  try_sides r tsel i0 suffix s = TOk (hit_state s j k it rem off).
+Proof.
+  induction suffix as [|sd suffix IH]; intros i0 s Hs Hi Hj Hnth Hscan; cbn [length] in Hj; [lia|].
+  cbn [try_sides].
+  assert (Hsd : sd = nth i0 O []).
+  { specialize (Hnth 0). cbn [length nth] in Hnth. rewrite Nat.add_0_r in Hnth. apply Hnth. lia. }
+  assert (Hnth' : forall m, m < length suffix -> nth m suffix [] = nth (S i0 + m) O []).
+  { intros m Hm. specialize (Hnth (S m)). cbn [length nth] in Hnth. rewrite Hnth by lia. f_equal. lia. }
+  destruct (Nat.eq_dec i0 j) as [->|Hne].
+  - replace (side_open s j) with true.
+    + rewrite Hsd, Hscan. apply (try_sides_closed r tsel suffix (S j) _ j); [reflexivity|lia].
+    + unfold side_open. destruct Hs as [-> | [-> _]]; [rewrite Nat.eqb_refl|]; reflexivity.
+  - destruct Hs as [Hs | [Hs Hres]].
+    + unfold side_open. rewrite Hs. replace (Nat.eqb j i0) with false by (symmetry; apply Nat.eqb_neq; lia).
+      apply IH; [left; exact Hs|lia|lia|exact Hnth'|exact Hscan].
+    + unfold side_open. rewrite Hs. rewrite Hsd.
+      rewrite scan_other_res by (intros g Hg; apply (Hres i0 g); [lia|exact Hg]).
+      apply IH; [right; split; assumption|lia|lia|exact Hnth'|exact Hscan].
+Qed.
+
+Fixpoint mk_rels (k0 : nat) (fs : list frag) : list (nat * offset) :=
+  match fs with [] => [] | f :: fs' => (k0, full f) :: mk_rels (S k0) fs' end.
+
+Lemma pairwise_apart_app pre f post : pairwise_apart (pre ++ f :: post) = true ->
+  forall g, In g pre -> apart g f = true.
+Proof.
+  induction pre as [|h pre IH]; intros H g Hg; [destruct Hg|]. cbn [app pairwise_apart] in H.
+  apply andb_true_iff in H. destruct H as [H1 H2]. destruct Hg as [->|Hg].
+  - rewrite forallb_forall in H1. apply H1. apply in_or_app. right. left. reflexivity.
+  - apply IH; assumption.
+Qed.
+
+(* the walk over the fragments of side j themselves: every one is found whole in itself *)
+Lemma walk_back O r j fs : nth j O [] = fs -> j < length O -> Forall (fun g => fb g <= fe g) fs ->
+  Forall (fun g => fres g = r) fs -> pairwise_apart fs = true ->
+  forall post pre s fuel, fs = pre ++ post -> s_buf s = map ts_of post -> side_is O r j s ->
+  length post < fuel ->
+  exists s', walk fuel r O s = TOk s' /\ (post <> [] -> s_side s' = Some j)
+    /\ (s_side s = Some j -> s_side s' = Some j)
+    /\ s_rels s' = s_rels s ++ mk_rels (length pre) post
+    /\ s_sels s' = fold_left (fun l f => push_at j (rng f) l) post (s_sels s)
+    /\ s_reseg s' = s_reseg s.
+Proof.
+  intros Hfs Hj Hw Hres Hap. induction post as [|f post IH]; intros pre s fuel Hsplit Hbuf Hside Hfuel.
+  - destruct fuel; [cbn [length] in Hfuel; lia|]. cbn [walk]. rewrite Hbuf. cbn [map].
+    exists s. cbn [mk_rels fold_left]. rewrite app_nil_r. repeat split; try reflexivity; try congruence; try (intros H; exact H).
+  - destruct fuel; [cbn [length] in Hfuel; lia|]. cbn [walk]. rewrite Hbuf. cbn [map].
+    set (s0 := mkst (s_side s) (s_found s) (s_rels s) (s_sels s) (s_reseg s) false (map ts_of post)).
+    assert (Hf : fb f <= fe f /\ fres f = r).
+    { rewrite Forall_forall in Hw, Hres. split; [apply Hw|apply Hres]; rewrite Hsplit; apply in_or_app; right; left; reflexivity. }
+    assert (Hscan : scan r (ts_of f) 0 (nth j O []) = SHit (0 + length pre) (ts_of f) None (full f)).
+    { rewrite Hfs, Hsplit. apply scan_exact; [apply Hf|apply Hf| |].
+      - rewrite Hsplit in Hw. apply Forall_app in Hw. apply Hw.
+      - intros g Hg _. apply (pairwise_apart_app pre f post); [rewrite <- Hsplit; exact Hap|exact Hg]. }
+    rewrite (try_sides_at O r j (ts_of f) _ _ _ _ O 0 s0 Hside ltac:(lia) ltac:(lia) ltac:(intros; reflexivity) Hscan).
+    cbn [hit_state s_hit]. fold (hit_state s0 j (0 + length pre) (ts_of f) None (full f)).
+    destruct (IH (pre ++ [f]) (hit_state s0 j (0 + length pre) (ts_of f) None (full f)) fuel) as (s' & Ew & _ & Hs2 & Hr & Hsel & Hrs).
+    + rewrite <- app_assoc. exact Hsplit.
+    + reflexivity.
+    + left. reflexivity.
+    + cbn [length] in Hfuel. lia.
+    + exists s'. split; [exact Ew|]. split; [intros _; apply Hs2; reflexivity|]. split; [intros _; apply Hs2; reflexivity|].
+      cbn [hit_state s_rels s_sels s_reseg s0] in Hr, Hsel, Hrs. split; [|split].
+      * rewrite Hr, <- app_assoc. cbn [app mk_rels]. rewrite app_length. cbn [length]. do 3 f_equal. lia.
+      * rewrite Hsel. cbn [fold_left ts_of tb te rng]. reflexivity.
+      * exact Hrs.
+Qed.
+
+Lemma Forall2_common {X Y} (P : X -> Y -> Prop) l : forall m n,
+  Forall2 P l n -> Forall2 P m n -> Forall2 (fun x y => exists z, P x z /\ P y z) l m.
+Proof.
+  induction l as [|x l IH]; intros m n H1 H2; inversion H1; subst; inversion H2; subst; constructor.
+  - eexists; split; eassumption.
+  - eapply IH; eassumption.
+Qed.
+
+Lemma WfT_sides T V j i : WfT T V -> j < length V -> i < length V ->
+  Forall2 (fun f g => wff T g /\ fe f - fb f = fe g - fb g) (nth j V []) (nth i V []).
+Proof.
+  intros (v0 & rest & EV & H) Hj Hi. rewrite Forall_forall in H.
+  destruct (H (nth j V []) (nth_In _ _ Hj)) as [Hw1 H1].
+  destruct (H (nth i V []) (nth_In _ _ Hi)) as [Hw2 H2].
+  pose proof (Forall2_common _ _ _ _ H1 H2) as H3.
+  assert (H4 : Forall2 (fun f g => (wff T f /\ wff T g) /\ exists z, subf T f = subf T z /\ subf T g = subf T z)
+                       (nth j V []) (nth i V [])).
+  { clear H1 H2. induction H3 as [|f g l m Hfg _ IH]; constructor.
+    - inversion Hw1; inversion Hw2; subst. split; [split; assumption|exact Hfg].
+    - inversion Hw1; inversion Hw2; subst. apply IH; assumption. }
+  eapply Forall2_impl'; [|exact H4]. intros f g ((Hf & Hg) & z & E1 & E2). split; [exact Hg|].
+  apply (same_text_length T f g Hf Hg). congruence.
+Qed.
+
+Lemma map_rels_full T sd : forall fpost gpost,
+  Forall2 (fun f g => wff T g /\ fe f - fb f = fe g - fb g) fpost gpost -> forall k0,
+  (forall m, m < length gpost -> nth_error sd (k0 + m) = nth_error gpost m) ->
+  map_rels (lens_of T) sd (mk_rels k0 fpost) = TOk gpost.
+Proof.
+  induction 1 as [|f g fpost gpost (Hg & Hlen) _ IH]; intros k0 Hn; cbn [mk_rels map_rels]; [reflexivity|].
+  pose proof (Hn 0 ltac:(cbn [length]; lia)) as H0. rewrite Nat.add_0_r in H0. cbn [nth_error] in H0. rewrite H0.
+  destruct Hg as (Hg1 & Hg2 & Hg3). rewrite lens_nth.
+  unfold findtext_sel_ts, beginaligned, rng, full. cbn [fst snd o_begin o_end].
+  replace ((fe g - fb g <? fb f - fb f) || (fe g - fb g <? fe f - fb f)) with false
+    by (symmetry; apply orb_false_iff; split; apply Nat.ltb_ge; lia).
+  unfold resource_ts, beginaligned. cbn [o_begin o_end].
+  replace (length (text_of T (fres g)) <? fb g + (fb f - fb f)) with false by (symmetry; apply Nat.ltb_ge; lia).
+  replace (length (text_of T (fres g)) <? fb g + (fe f - fb f)) with false by (symmetry; apply Nat.ltb_ge; lia).
+  replace (fb g + (fb f - fb f) <=? fb g + (fe f - fb f)) with true by (symmetry; apply Nat.leb_le; lia).
+  rewrite IH.
+  - cbn [fst snd]. f_equal. f_equal. destruct g as [gr gb ge]. cbn [fres fb fe] in *. f_equal; lia.
+  - intros m Hm. specialize (Hn (S m) ltac:(cbn [length]; lia)). cbn [nth_error] in Hn.
+    rewrite <- Hn. f_equal. lia.
+Qed.
+
+Lemma frags_of_rng r fs : Forall (fun g => fres g = r) fs -> frags_of r (map rng fs) = fs.
+Proof.
+  induction 1 as [|g fs Hg _ IH]; cbn [map frags_of]; [reflexivity|]. fold (frags_of r (map rng fs)). rewrite IH.
+  destruct g as [gr gb ge]. cbn [fres] in Hg. subst gr. reflexivity.
+Qed.
+
+Lemma map_sides_back T O r j fs sels : WfT T O -> j < length O -> nth j O [] = fs ->
+  Forall (fun g => fres g = r) fs ->
+  nth j sels [] = map rng fs -> (forall i, i <> j -> nth i sels [] = []) ->
+  forall suffix i0, i0 + length suffix = length O ->
+  (forall m, m < length suffix -> nth m suffix [] = nth (i0 + m) O []) ->
+  map_sides (lens_of T) r j i0 suffix sels (mk_rels 0 fs) = TOk suffix.
+Proof.
+  intros HW Hj Hfs Hres Hsel Hoth. induction suffix as [|sd suffix IH]; intros i0 Hlen Hnth; cbn [map_sides]; [reflexivity|].
+  cbn [length] in Hlen.
+  assert (Hsd : sd = nth i0 O []).
+  { specialize (Hnth 0). cbn [length nth] in Hnth. rewrite Nat.add_0_r in Hnth. apply Hnth. lia. }
+  rewrite (IH (S i0)).
+  - destruct (Nat.eqb i0 j) eqn:Ei.
+    + apply Nat.eqb_eq in Ei. subst i0. rewrite Hsel. fold (frags_of r (map rng fs)). rewrite frags_of_rng by exact Hres.
+      rewrite Hsd, Hfs. reflexivity.
+    + apply Nat.eqb_neq in Ei. rewrite (Hoth i0 Ei). cbn [map app].
+      rewrite (map_rels_full T sd fs sd) with (k0 := 0).
+      * reflexivity.
+      * rewrite Hsd, <- Hfs. apply WfT_sides; [exact HW|exact Hj|lia].
+      * intros m _. reflexivity.
+  - lia.
+  - intros m Hm. specialize (Hnth (S m)). cbn [length nth] in Hnth. rewrite Hnth by lia. f_equal. lia.
+Qed.
+
+Lemma fold_push_nth {X} (h : X -> nat * nat) j post : forall l, j < length l ->
+  nth j (fold_left (fun l f => push_at j (h f) l) post l) [] = nth j l [] ++ map h post
+  /\ forall i, i <> j -> nth i (fold_left (fun l f => push_at j (h f) l) post l) [] = nth i l [].
+Proof.
+  induction post as [|f post IH]; intros l Hl; cbn [fold_left map].
+  - rewrite app_nil_r. split; [reflexivity|intros; reflexivity].
+  - destruct (IH (push_at j (h f) l)) as (H1 & H2); [rewrite push_at_length; exact Hl|]. split.
+    + rewrite H1, nth_push_at_same by exact Hl. rewrite <- app_assoc. reflexivity.
+    + intros i Hi. rewrite H2 by exact Hi. apply nth_push_at_other. lia.
+Qed.
+
+Lemma length_lt_fuel src : length src < fuel_for src.
+Proof.
+  unfold fuel_for. apply Nat.lt_succ_r. induction src as [|p src IH]; cbn [length fold_right]; lia.
+Qed.
+
+Lemma transpose_back_aux T O j cfg fuel fs r :
+  WfT T O -> j < length O -> nth j O [] = fs -> fs <> [] ->
+  Forall (fun g => fres g = r) fs -> pairwise_apart fs = true ->
+  (cfg = Some j \/ (cfg = None /\ forall i g, i < j -> In g (nth i O []) -> fres g <> r)) ->
+  fuel_for (map rng fs) <= fuel ->
+  transpose fuel (lens_of T) true O r (map rng fs) cfg true = TOk (mkres j false O).
+Proof.
+  intros HW Hj Efs Hne Hres Hap Hcfg Hfuel.
+  assert (Hw : Forall (fun g => fb g <= fe g) fs).
+  { pose proof (WfT_wfside T O HW) as Hws. rewrite Forall_forall in Hws. rewrite <- Efs. apply Hws. apply nth_In. exact Hj. }
+  unfold transpose.
+  assert (Hbuf : map ts_of_rng (map rng fs) = map ts_of fs) by (rewrite map_map; reflexivity).
+  rewrite Hbuf.
+  assert (Hside : side_is O r j (init_st (length O) cfg (map ts_of fs))).
+  { destruct Hcfg as [->|[-> Honly]]; [left; reflexivity|]. right. split; [reflexivity|exact Honly]. }
+  destruct (walk_back O r j fs Efs Hj Hw Hres Hap fs [] (init_st (length O) cfg (map ts_of fs)) fuel eq_refl eq_refl Hside)
+    as (s' & Ew & Hs1 & _ & Hr & Hsel & Hrs).
+  { pose proof (length_lt_fuel (map rng fs)) as Hl. rewrite map_length in Hl. lia. }
+  rewrite Ew. rewrite Hs1 by exact Hne.
+  cbn [init_st s_rels s_sels s_reseg app length] in Hr, Hsel, Hrs.
+  destruct (fold_push_nth rng j fs (repeat [] (length O)) ltac:(rewrite repeat_length; exact Hj)) as (Hn1 & Hn2).
+  rewrite <- Hsel in Hn1, Hn2. rewrite nth_repeat_nil in Hn1. cbn [app] in Hn1.
+  rewrite Hr. rewrite (map_sides_back T O r j fs (s_sels s') HW Hj Efs Hres Hn1).
+  - rewrite Hn1, map_length. destruct fs as [|f fs']; [congruence|]. cbn [length]. rewrite Hrs. reflexivity.
+  - intros i Hi. rewrite Hn2 by exact Hi. apply nth_repeat_nil.
+  - reflexivity.
+  - intros; reflexivity.
+Qed.
+
+(* transpose_back: the fragments of side j of a (new) transposition, transposed over it from side
+   j, come back with exactly the offsets the transposition holds on every side *)
+Theorem transpose_back T O j cfg fuel :
+  wf_transp T O = true -> j < length O ->
+  single_res (nth j O []) = true -> pairwise_apart (nth j O []) = true ->
+  (cfg = Some j \/ (cfg = None /\ only_side_in_res O j = true)) ->
+  fuel_for (map rng (nth j O [])) <= fuel ->
+  transpose_annotation fuel (lens_of T) true O (nth j O []) cfg = TOk (mkres j false O).
+Proof.
+  intros HwT Hj Hsr Hap Hcfg Hfuel. pose proof (wf_transp_WfT T O HwT) as HW.
+  destruct (nth j O []) as [|f0 fs0] eqn:Efs; [discriminate|].
+  unfold transpose_annotation. unfold single_res in Hsr. rewrite Hsr.
+  apply (transpose_back_aux T O j cfg fuel (f0 :: fs0) (fres f0) HW Hj Efs); try assumption.
+  - discriminate.
+  - apply Forall_forall. intros g Hg. rewrite forallb_forall in Hsr. apply Nat.eqb_eq. apply Hsr. exact Hg.
+  - destruct Hcfg as [->|[-> Honly]]; [left; reflexivity|]. right. split; [reflexivity|].
+    intros i g Hi Hg. unfold only_side_in_res in Honly. unfold side in *. rewrite Efs in Honly. rewrite forallb_forall in Honly.
+    specialize (Honly i ltac:(apply in_seq; lia)). replace (Nat.eqb i j) with false in Honly by (symmetry; apply Nat.eqb_neq; lia).
+    cbn [orb] in Honly. rewrite forallb_forall in Honly. specialize (Honly g Hg). apply negb_true_iff in Honly.
+    apply Nat.eqb_neq in Honly. exact Honly.
+Qed.
+
+Lemma flagged_back O j : j < length O -> flagged (mkres j false O) = expected_back O j.
+Proof. intros _. reflexivity. Qed.
+
+(** * the new transposition is a transposition again *)
+
+Lemma Forall2_sym_trans {X} (P : X -> X -> Prop) :
+  (forall x y, P x y -> P y x) -> (forall x y z, P x y -> P y z -> P x z) ->
+  forall l m n, Forall2 P l n -> Forall2 P m n -> Forall2 P l m.
+Proof.
+  intros Hs Ht. induction l as [|x l IH]; intros m n H1 H2; inversion H1; subst; inversion H2; subst; constructor.
+  - eapply Ht; [eassumption|]. apply Hs. assumption.
+  - eapply IH; eassumption.
+Qed.
+
+Lemma Forall2_refl' {X} (P : X -> X -> Prop) l : (forall x, P x x) -> Forall2 P l l.
+Proof. intros H. induction l; constructor; auto. Qed.
+
+(* new_transposition_wf: the sides read back from a successful transposition satisfy WfTransp *)
+Theorem new_transposition_ok T V r src cfg O :
+  wf_transp T V = true -> check_forward T V r src cfg O = true -> new_transposition_wf T O = true.
+Proof.
+  intros HV H. unfold check_forward in H. destruct (find_flag 0 O) as [s|] eqn:Ef; [|discriminate].
+  repeat (apply andb_true_iff in H; destruct H as [H ?]).
+  rename H0 into Htargets, H1 into Hcov, H2 into Hre, H3 into Hos, H4 into Hcfg, H5 into Hlen.
+  apply Nat.eqb_eq in Hlen.
+  set (os := snd (nth s O (0, []))) in *.
+  (* every side is in range and has piecewise the text of the source side *)
+  assert (Hall : forall j, j < length O ->
+            Forall (fun g => in_range T g = true) (snd (nth j O (0, [])))
+            /\ Forall2 (fun g p => same_text T g p = true) (snd (nth j O (0, []))) os).
+  { intros j Hj. rewrite forallb_forall in Htargets. specialize (Htargets j ltac:(apply in_seq; lia)).
+    destruct (Nat.eqb j s) eqn:Ejs.
+    - apply Nat.eqb_eq in Ejs. subst j. fold os. split.
+      + apply Forall_forall. intros g Hg. rewrite forallb_forall in Hos. specialize (Hos g Hg).
+        apply andb_true_iff in Hos. apply Hos.
+      + apply Forall2_refl'. intros g. unfold same_text. apply text_eqb_eq. reflexivity.
+    - cbn [orb] in Htargets. unfold target_ok in Htargets. apply forallb2_Forall2 in Htargets. split.
+      + clear - Htargets. induction Htargets as [|g p l m Hgp _ IH]; constructor; [|exact IH].
+        apply andb_true_iff in Hgp. destruct Hgp as [Hgp _]. apply andb_true_iff in Hgp. apply Hgp.
+      + eapply Forall2_impl'; [|exact Htargets]. intros g p Hgp. cbv beta in Hgp.
+        apply andb_true_iff in Hgp. apply Hgp. }
+  unfold new_transposition_wf, wf_transp.
+  destruct O as [|o0 O'] eqn:EO; [unfold wf_transp in HV; destruct V; [discriminate|cbn [length] in Hlen; discriminate]|].
+  cbn [map]. rewrite <- EO in *. apply forallb_forall. intros sd Hsd.
+  assert (Hsd' : In sd (map snd O)) by (rewrite EO; exact Hsd).
+  apply (In_nth _ _ []) in Hsd'. destruct Hsd' as (j & Hj & Hnth). rewrite map_length in Hj.
+  assert (Enth : snd (nth j O (0, [])) = sd).
+  { rewrite <- Hnth. change (@nil frag) with (snd ((0, []) : oside)). rewrite map_nth. reflexivity. }
+  destruct (Hall j Hj) as (Hr & Ht). rewrite Enth in Hr, Ht.
+  destruct (Hall 0 ltac:(rewrite EO; cbn [length]; lia)) as (_ & Ht0). rewrite EO in Ht0 at 1. cbn [nth] in Ht0.
+  apply andb_true_iff. split.
+  - apply forallb_forall. rewrite Forall_forall in Hr. exact Hr.
+  - apply forallb2_Forall2.
+    apply (Forall2_sym_trans (fun g p => same_text T g p = true)) with (n := os); [| |exact Ht|exact Ht0].
+    + intros x y Hxy. unfold same_text in *. apply text_eqb_eq. apply text_eqb_eq in Hxy. congruence.
+    + intros x y z Hxy Hyz. unfold same_text in *. apply text_eqb_eq. apply text_eqb_eq in Hxy, Hyz. congruence.
+Qed.
+
+(** * what the specification says about the texts *)
+
+Lemma firstn_add {X} (l : list X) : forall n m, firstn (n + m) l = firstn n l ++ firstn m (skipn n l).
+Proof.
+  induction l as [|a l IH]; intros n m.
+  - rewrite skipn_nil, !firstn_nil. reflexivity.
+  - destruct n; cbn [Nat.add firstn skipn app]; [reflexivity|]. rewrite IH. reflexivity.
+Qed.
+
+Lemma sub_app (t : text) x y b : x <= y -> y <= b -> sub t x y ++ sub t y b = sub t x b.
+Proof.
+  intros H1 H2. unfold sub. replace (b - x) with ((y - x) + (b - y)) by lia. rewrite firstn_add.
+  rewrite skipn_skipn. replace (y - x + x) with y by lia. reflexivity.
+Qed.
+
+Definition sub2 (t : text) (p : nat * nat) : text := sub t (fst p) (snd p).
+
+Lemma take_chain_text t : forall ps x b rest, take_chain x b ps = Some rest ->
+  exists used, ps = used ++ rest /\ concat (map (sub2 t) used) = sub t x b.
+Proof.
+  induction ps as [|p ps IH]; intros x b rest H; cbn [take_chain] in H; [discriminate|].
+  destruct (Nat.eqb (fst p) x && (fst p <=? snd p) && (snd p <=? b)) eqn:Ec; [|discriminate].
+  apply andb_true_iff in Ec. destruct Ec as [Ec E3]. apply andb_true_iff in Ec. destruct Ec as [E1 E2].
+  apply Nat.eqb_eq in E1. apply Nat.leb_le in E2, E3.
+  destruct (Nat.eqb (snd p) b) eqn:E4.
+  - apply Nat.eqb_eq in E4. inversion H; subst rest. exists [p]. split; [reflexivity|].
+    cbn [map concat]. rewrite app_nil_r. unfold sub2. congruence.
+  - destruct (IH _ _ _ H) as (used & Eu & Et). exists (p :: used). split; [cbn [app]; congruence|].
+    cbn [map concat]. rewrite Et. unfold sub2. rewrite E1. apply sub_app; lia.
+Qed.
+
+(* a re-segmentation selects, in order, exactly the text of the source *)
+Lemma reseg_text t : forall src ps, is_reseg src ps = true ->
+  concat (map (sub2 t) ps) = concat (map (sub2 t) src).
+Proof.
+  induction src as [|p src IH]; intros ps H; cbn [is_reseg] in H.
+  - destruct ps; [reflexivity|discriminate].
+  - destruct (take_chain (fst p) (snd p) ps) as [rest|] eqn:Et; [|discriminate].
+    destruct (take_chain_text t _ _ _ _ Et) as (used & -> & Eu).
+    rewrite map_app, concat_app, Eu, (IH _ H). reflexivity.
+Qed.
+
+Lemma target_ok_facts T vj oj os : target_ok T vj oj os = true ->
+  Forall (fun g => in_range T g = true) oj /\ map (subf T) oj = map (subf T) os.
+Proof.
+  unfold target_ok. intros H. apply forallb2_Forall2 in H.
+  induction H as [|g p l m Hgp _ IH]; [split; [constructor|reflexivity]|].
+  apply andb_true_iff in Hgp. destruct Hgp as [Hgp Ht]. apply andb_true_iff in Hgp. destruct Hgp as [Hg _].
+  destruct IH as (IH1 & IH2). split; [constructor; assumption|]. cbn [map]. f_equal; [|exact IH2].
+  unfold same_text in Ht. apply text_eqb_eq. exact Ht.
+Qed.
+
+(* transpose_text in words: the source side of the new transposition selects the text of the source,
+   cut into consecutive pieces in order, and every other side selects the same pieces of text *)
+Theorem check_forward_text T V r src cfg O : check_forward T V r src cfg O = true ->
+  exists s, find_flag 0 O = Some s /\ length O = length V
+    /\ concat (map (subf T) (snd (nth s O (0, [])))) = concat (map (sub2 (text_of T r)) src)
+    /\ covered (nth s V []) r src = true
+    /\ forall j, j < length O ->
+         Forall (fun g => in_range T g = true) (snd (nth j O (0, [])))
+         /\ map (subf T) (snd (nth j O (0, []))) = map (subf T) (snd (nth s O (0, []))).
+Proof.
+  intros H. unfold check_forward in H. destruct (find_flag 0 O) as [s|] eqn:Ef; [|discriminate].
+  repeat (apply andb_true_iff in H; destruct H as [H ?]).
+  rename H0 into Htargets, H1 into Hcov, H2 into Hre, H3 into Hos, H4 into Hcfg, H5 into Hlen.
+  exists s. split; [reflexivity|]. split; [apply Nat.eqb_eq; exact Hlen|].
+  set (os := snd (nth s O (0, []))) in *. split; [|split; [exact Hcov|]].
+  - rewrite <- (reseg_text (text_of T r) src (map rng os) Hre). f_equal. rewrite map_map.
+    apply map_ext_in. intros g Hg. rewrite forallb_forall in Hos. specialize (Hos g Hg).
+    apply andb_true_iff in Hos. destruct Hos as [Hr _]. apply Nat.eqb_eq in Hr. unfold subf, sub2, rng. cbn [fst snd]. rewrite Hr. reflexivity.
+  - intros j Hj. rewrite forallb_forall in Htargets. specialize (Htargets j ltac:(apply in_seq; lia)).
+    destruct (Nat.eqb j s) eqn:Ejs.
+    + apply Nat.eqb_eq in Ejs. subst j. fold os. split; [|reflexivity].
+      apply Forall_forall. intros g Hg. rewrite forallb_forall in Hos. specialize (Hos g Hg).
+      apply andb_true_iff in Hos. apply Hos.
+    + cbn [orb] in Htargets. exact (target_ok_facts _ _ _ _ Htargets).
+Qed.
